@@ -883,6 +883,130 @@ def probe_reference(tree):
     need(type(r[1].protocol[0]) is dict, "probe: recreate_classes changes its argument in place")
 
 
+def probe_hooks(tree):
+    """Second reader for the hook table: how each serializer's loads / loadsCall applies dict_to_class is MEASURED on the
+    functions of the tree under test (used when their shape is not recognised: private helpers, validation wrappers ...).
+    Measured per serializer and path: which parts of a call are re-created and in which order (a recording converter),
+    whether members of a class dict are re-created before the class itself (bottom-up = msgpack's object_hook), whether
+    msgpack ext values are converted and for which codes, and serpent's float special case."""
+    import json as _json, marshal as _marshal, struct as _struct
+    from tools.gen.gen import tree_module
+    sz = tree_module(tree, "Pyro5.serializers")
+    core = tree_module(tree, "Pyro5.core")
+    config = tree_module(tree, "Pyro5.config") if False else __import__("Pyro5").config
+    import serpent as _serpent
+    try:
+        import msgpack as _msgpack
+    except ImportError:
+        _msgpack = None
+    base = sz.SerializerBase
+    regattr = "_SerializerBase__custom_dict_to_class_registry"
+    saved = dict(getattr(base, regattr))
+
+    def enc(name, v):
+        if name == "serpent":
+            return _serpent.dumps(v, module_in_classname=True, bytes_repr=config.SERPENT_BYTES_REPR)
+        if name == "marshal":
+            return _marshal.dumps(v)
+        if name == "json":
+            return _json.dumps(v).encode("utf-8")
+        return _msgpack.packb(v, use_bin_type=True)
+
+    def uri():
+        return {"__class__": "Pyro5.core.URI", "state": ["PYRO", "o", None, "h", 1]}
+
+    def nested():
+        return {"__class__": "Pyro5.core.URI", "state": [uri(), "o", None, "h", 1]}
+
+    def call_msg(name, parts):
+        if name == "json":
+            return dict(zip(("object", "method", "params", "kwargs"), parts))
+        return tuple(parts) if name in ("serpent", "marshal") else list(parts)
+
+    def is_uri(x):
+        return type(x) is core.URI
+    hooks, ids, specials, extcodes = [], {}, [], None
+    order_log = []
+    try:
+        for name, ser in sorted(sz.serializers.items(), key=lambda kv: kv[1].serializer_id):
+            sid = ser.serializer_id
+            need(isinstance(sid, int) and sid > 0, "serializer %s without a serializer_id" % name)
+            ids[type(ser).__name__] = sid
+            # ---- loads
+            r = ser.loads(enc(name, [nested(), "x"]))
+            need(type(r) is list and is_uri(r[0]) and r[1] == "x", "probe: %s.loads does not re-create a class dict inside a list" % name)
+            bottom = is_uri(r[0].protocol)
+            need(bottom or type(r[0].protocol) is dict, "probe: %s.loads leaves an unexpected member in a re-created object" % name)
+            ext = False
+            if name == "msgpack":
+                x = ser.loads(_msgpack.packb([_msgpack.ExtType(0x31, b"12")], use_bin_type=True))
+                ext = x == [12]
+                need(ext or type(x[0]) is _msgpack.ExtType, "probe: msgpack.loads does something unknown with ext values")
+            hooks.append((sid, "loads", "BottomUp true %s" % cbool(ext) if bottom else "TopDown [0%%N] %s" % cbool(ext)))
+            # ---- loadsCall: which parts, members first?, order
+            r = ser.loadsCall(enc(name, call_msg(name, [uri(), uri(), [nested()], {"k": uri()}])))
+            need(len(r) == 4, "probe: %s.loadsCall does not return four parts" % name)
+            got = [is_uri(r[0]), is_uri(r[1]), type(r[2]) in (list, tuple) and len(r[2]) == 1 and is_uri(r[2][0]), type(r[3]) is dict and is_uri(r[3].get("k"))]
+            for i, g in enumerate(got):
+                need(g or (i < 2 and type(r[i]) is dict) , "probe: %s.loadsCall changes call part %d in an unknown way" % (name, i + 1))
+            need(got[2] and got[3], "probe: %s.loadsCall does not re-create the arguments" % name)
+            bottom = is_uri(r[2][0].protocol)
+            ext = False
+            if name == "msgpack":
+                x = ser.loadsCall(_msgpack.packb(["o", "m", [_msgpack.ExtType(0x31, b"12")], {}], use_bin_type=True))
+                ext = list(x[2]) == [12]
+            if bottom:
+                need(all(got), "probe: %s.loadsCall re-creates bottom-up but not in every part" % name)
+                hooks.append((sid, "loadsCall", "BottomUp true %s" % cbool(ext)))
+            else:
+                del order_log[:]
+                for i in range(4):
+                    base.register_dict_to_class("zz.hookprobe.%d" % i, lambda tag, d: order_log.append(int(tag[-1])) or tag)
+                ser.loadsCall(enc(name, call_msg(name, [{"__class__": "zz.hookprobe.0"}, {"__class__": "zz.hookprobe.1"},
+                                                        [{"__class__": "zz.hookprobe.2"}], {"k": {"__class__": "zz.hookprobe.3"}}])))
+                for i in range(4):
+                    base.unregister_dict_to_class("zz.hookprobe.%d" % i)
+                need(sorted(order_log) == [i for i in range(4) if got[i]], "probe: %s.loadsCall re-creation order could not be measured" % name)
+                hooks.append((sid, "loadsCall", "TopDown %s %s" % (clist([cN(i + 1) for i in order_log]), cbool(ext))))
+            # ---- a tag the serializer itself turns into a float, before the registry
+            try:
+                x = ser.loads(enc(name, [{"__class__": "float", "value": "1.5"}]))
+                special = type(x[0]) is float and x[0] == 1.5
+            except Exception:
+                special = False
+            if special:
+                base.register_dict_to_class("float", lambda tag, d: "converted")
+                x = ser.loads(enc(name, [{"__class__": "float", "value": "1.5"}]))
+                base.unregister_dict_to_class("float")
+                need(x == [1.5], "probe: %s lets a registered converter take its special tag" % name)
+                specials.append((sid, "float", "value"))
+        if _msgpack is not None and "msgpack" in sz.serializers and any("true" in m.split()[-1] for _, _, m in hooks):
+            ser = sz.serializers["msgpack"]
+            extcodes = []
+            samples = [b"12", _struct.pack("d", 1.0), _struct.pack("dd", 1.0, 2.0), _struct.pack("l", 5), _struct.pack("i", 5), b"", b"x"]
+            for code in range(0, 128):
+                ok = False
+                for data in samples:
+                    try:
+                        x = ser.loads(_msgpack.packb([_msgpack.ExtType(code, data)], use_bin_type=True))
+                    except Exception:
+                        continue
+                    need(type(x[0]) in (int, float, complex) or type(x[0]).__module__ == "datetime" or type(x[0]) is _msgpack.ExtType,
+                         "probe: msgpack ext code %d builds a %s" % (code, type(x[0]).__name__))
+                    if type(x[0]) is not _msgpack.ExtType:
+                        ok = True
+                        break
+                if ok:
+                    extcodes.append(code)
+    finally:
+        for c in [base] + [type(v) for v in sz.serializers.values()]:
+            if c is not base and regattr in c.__dict__:
+                delattr(c, regattr)
+        getattr(base, regattr).clear()
+        getattr(base, regattr).update(saved)
+    return hooks, ids, specials, extcodes
+
+
 def evaluated_all_exceptions(tree, tables):
     """all_exceptions as Python built it in the tree under test; every class is looked up in the name tables"""
     from tools.gen.gen import tree_module
@@ -927,7 +1051,12 @@ def gen_classtag(tree):
     dtc = read("dict_to_class", lambda: parse_dict_to_class(mod, scope))
     mk = read("make_exception", lambda: parse_make_exception(mod))
     rc = read("recreate_classes", lambda: parse_recreate(mod, dtc["tagkey"]))
-    hooks, ids, specials, extcodes = parse_hooks(mod, dtc["tagkey"])
+    try:
+        hooks, ids, specials, extcodes = parse_hooks(mod, dtc["tagkey"])
+        mode["hooks"] = "ast"
+    except GenError as x:
+        hooks, ids, specials, extcodes = probe_hooks(tree)
+        mode["hooks"] = "measured on the real loads / loadsCall (ast reader: %s)" % x
     tables = runtime_tables(tree)
     regmode = parse_registries(mod)
     try:
